@@ -42,6 +42,9 @@ impl ParserNode {
     }
 }
 
+/// The number of `.include` directives that are followed in one program.
+pub const MAX_INCLUDED_FILES: usize = 1000;
+
 pub trait CanGetURIString: FileReader {
     fn get_uri_string(&self, uuid: Uuid) -> RVDocument;
 }
@@ -162,6 +165,7 @@ impl<T: FileReader> RVParser<T> {
     ) -> (Vec<ParserNode>, Vec<ParseError>) {
         let mut nodes = Vec::new();
         let mut parse_errors = Vec::new();
+        let mut included_files = 0;
 
         // import base lexer
         let lexer = match self.reader.import_file(base, None) {
@@ -194,6 +198,16 @@ impl<T: FileReader> RVParser<T> {
                 Ok(x) => {
                     if !ignore_imports {
                         if let Some(path) = x.get_include_path() {
+                            // Files that include each other several times
+                            // over multiply: n small files, each including
+                            // the next one twice, stand for 2^n inclusions.
+                            if included_files >= MAX_INCLUDED_FILES {
+                                parse_errors.push(ParseError::TooManyIncludes(Box::new(
+                                    path.token().clone(),
+                                )));
+                                continue;
+                            }
+                            included_files += 1;
                             match self.reader.import_file(path.get(), Some(path.file())) {
                                 Ok((new_uuid, _)) if self.file_stack.contains(&new_uuid) => {
                                     // The reader handed back a file that is
